@@ -12,14 +12,29 @@ Session = 1-3 engines configured differently (allowed set form, timeout, ROS cei
 constructor tools) used alternately, under real or virtual time, with registration / re-registration /
 removal / declaration mutation / policy changes / reporting and maintenance calls interleaved with
 requests over every tool entry point. A few sessions per run are long (> 20 000 operations on one engine).
+
+Round 4: engines are duplicated mid-session (copy.copy, copy.deepcopy, pickle round trip, the reduce protocol by hand) and the duplicate is
+one more engine with the policy and registrations of the original; tool objects are module-level (picklable) and find their session through
+`_ACTIVE`; short-lived tools are created and dropped so that addresses are reused; a share of the sessions prints to a strict UTF-8 stream
+with hostile tool names; allowed sets / declarations / options come in unusual value types; and a share of the same session workload runs in
+child interpreters started with -O and -OO (the latter in a time zone far from UTC), reported as `<mechanism>:python-O`.
 """
 import collections
 import contextlib
+import copy
+import decimal
 import enum
+import fractions
+import gc
 import inspect
+import io
+import json
 import os
+import pickle
+import subprocess
 import sys
 import tempfile
+import types
 
 from rv import core, sched, vclock
 from rv.locks import wrap_all_locks
@@ -29,7 +44,8 @@ LEVEL = "exploration"
 TECHNIQUE = "runtime monitoring: side-effect log + audit-hook sentinel inside generated tool bodies, history checked against a capability-subset model (own copy of policy and declarations) over every tool entry point"
 RULE = ("histories of <= 10 steps (a few of > 20 000) over 1-3 engines: {register/re-register/remove tool, mutate a declaration, change allowed set, "
         "reporting and maintenance calls, request via metabolize auto/forced/nested, digest_glucose, execute_tool_call, LLM tool loop with adversarial "
-        "provider, re-entrant requests from tool bodies}; non-trivial = history contains >= 1 forbidden request that reached an entry point; "
+        "provider, re-entrant requests from tool bodies, duplicate the engine (copy/deepcopy/pickle/reduce) and drive the duplicate, address-reuse rounds}, "
+        "a share of them in child interpreters started with -O/-OO; non-trivial = history contains >= 1 forbidden request that reached an entry point; "
         "distinct = (entry point, |allowed|, |required - allowed|, declaration style, tag kind)")
 ASSUMPTIONS = ["a required tag r is certainly outside the allowed set only if no allowed tag equals it under Python equality NOR under a lenient reading "
                "(case-insensitive match of str()/value/name, with or without the 'Enum.' prefix); requests that are forbidden under one reading "
@@ -38,7 +54,14 @@ ASSUMPTIONS = ["a required tag r is certainly outside the allowed set only if no
                "when a declaration is mutated after registration, the request is judged only if the declaration at registration time and the current "
                "declaration agree on the verdict",
                "the policy of an engine is the set it was constructed with or the set last assigned to its public `allowed_capabilities` attribute; "
-               "the check never mutates such a set itself"]
+               "the check never mutates such a set itself",
+               "a duplicate of an engine (copy.copy, copy.deepcopy, pickle, reduce protocol) carries the policy of the original at the moment of duplication; "
+               "a duplicated tool declares what the original declared at that moment (all readings must agree for a request to be judged); whether a "
+               "shallow copy shares the registry with the original is read from the public `tools` attribute, not assumed",
+               "an allowed set handed over as a one-shot iterable may only make the engine MORE restrictive than the model once it is exhausted; "
+               "a declaration handed over as a one-shot iterable is outside the statement (not generated)",
+               "a declaration that also lists an unhashable tag is judged on its hashable part only",
+               "a registration that raises (progress message on a strict stream) counts as made iff the public registry holds the tool afterwards"]
 
 _AUDIT = {"armed": False, "hits": [], "dir": None}
 
@@ -52,6 +75,8 @@ def setup_shard(ctx):
     _AUDIT["dir"] = tempfile.mkdtemp(prefix="operon-verif-c03-", dir="/var/tmp")
     sys.addaudithook(_audit)
     discover_entry_points(ctx)
+    if ctx.shard == 0:
+        enumerate_public_api(ctx)
 
 
 def teardown_shard(ctx):
@@ -86,6 +111,35 @@ def discover_entry_points(ctx):
                     ctx.inconclusive("undriven tool entry point %s.%s%s" % (cls.__name__, name, sig))
 
 
+def enumerate_public_api(ctx):
+    """informational: public methods / keyword arguments of the anchored classes that this driver never uses"""
+    from operon_ai.organelles.mitochondria import Mitochondria, SimpleTool
+    from operon_ai.organelles.nucleus import Nucleus
+    try:
+        src = inspect.getsource(sys.modules[__name__])
+    except Exception:
+        return
+    for cls in (Mitochondria, Nucleus, SimpleTool):
+        for name, fn in inspect.getmembers(cls, predicate=inspect.isfunction):
+            if name.startswith("_") and name != "__init__":
+                continue
+            ctx.count("public_methods_listed")
+            driven = name == "__init__" or (cls is SimpleTool and name == "execute") or (".%s(" % name) in src or ('"%s"' % name) in src or name.startswith(("get_", "list_", "export_"))
+            if not driven:
+                ctx.count("public_methods_not_driven")
+                ctx.notes.append("public method never driven: %s.%s" % (cls.__name__, name))
+                continue
+            try:
+                params = [p.name for p in inspect.signature(fn).parameters.values() if p.name != "self" and p.kind not in (p.VAR_POSITIONAL, p.VAR_KEYWORD)]
+            except (TypeError, ValueError):
+                continue
+            for pn in params:
+                ctx.count("public_keywords_listed")
+                if (pn + "=") not in src and ('"%s"' % pn) not in src:
+                    ctx.count("public_keywords_not_used")
+                    ctx.notes.append("keyword never used by the driver: %s.%s(%s=...)" % (cls.__name__, name, pn))
+
+
 def plan(tier):
     return {"cases": 24000 if tier == "quick" else 360000, "shards": 8 if tier == "quick" else 14,
             "min_nontrivial": 20, "timeout": 600 if tier == "quick" else 2400,
@@ -98,7 +152,15 @@ def plan(tier):
                         "forbidden_requests:after_tool_raised": 100, "forbidden_requests:after_declaration_mutation": 50,
                         "forbidden_requests:dysfunctional": 50, "forbidden_requests:reentrant": 20,
                         "reads": 1000, "maintenance_calls": 300, "unregistrations": 300, "long_session_ops": 20000,
-                        "tool_bodies_raised": 300, "provider_raised": 20}}
+                        "tool_bodies_raised": 300, "provider_raised": 20,
+                        # round 4: duplicates of an engine, optimised interpreters, hostile names on strict streams, address reuse
+                        "duplications": 300, "forbidden_requests:on_duplicate": 300, "forbidden_requests:on_duplicate:copy": 50,
+                        "forbidden_requests:on_duplicate:deepcopy": 50, "forbidden_requests:on_duplicate:pickle": 50,
+                        "forbidden_requests:on_duplicate:reduce": 50, "permitted_runs:on_duplicate": 100,
+                        "python-O:children": 2, "python-O:forbidden_requests": 150, "python-O:permitted_runs": 50,
+                        "python-O:entry:execute_tool_call": 50, "python-O:entry:metabolize_forced": 50, "python-O:entry:llm_loop": 30,
+                        "forbidden_requests:strict_stream": 1000, "forbidden_requests:hostile_name": 300, "address_reuse_rounds": 100,
+                        "forbidden_requests:unhashable_required": 300, "tool_duplicates_registered": 300, "registry_rebound": 100}}
 
 
 # ------------------------------------------------------------------ model
@@ -124,7 +186,12 @@ def canon(tag):
         v = getattr(tag, attr, None)
         if v is not None and not callable(v):
             s.add(str(v).lower())
+    if isinstance(tag, (bytes, bytearray)):
+        s.add(bytes(tag).decode("utf-8", "replace").lower())
     s |= {x.rsplit(".", 1)[-1] for x in list(s)}
+    s |= {x.strip() for x in list(s)}
+    if len(_CANON) > 20000:
+        _CANON.clear()
     _CANON[mk] = frozenset(s)
     return _CANON[mk]
 
@@ -177,8 +244,102 @@ class ToolBodyAbort(BaseException):
     """a tool body may raise something that is not an Exception"""
 
 
+class UnprintableError(Exception):
+    def __str__(self):
+        raise RuntimeError("no text for you")
+    __repr__ = __str__
+
+
+import socket as _socket
+
 RAISE_KINDS = {"runtime": RuntimeError, "permission": PermissionError, "oserror": ConnectionError, "timeout": TimeoutError,
-               "value": ValueError, "key": KeyError, "custom": ToolBodyError, "base": ToolBodyAbort}
+               "value": ValueError, "key": KeyError, "custom": ToolBodyError, "base": ToolBodyAbort,
+               # every exception type a handler could discriminate on
+               "type": TypeError, "assertion": AssertionError, "socket_timeout": _socket.timeout, "stop": StopIteration,
+               "recursion": RecursionError, "memory": MemoryError, "index": IndexError, "unicode": UnicodeError, "attribute": AttributeError,
+               "exit": SystemExit, "interrupt": KeyboardInterrupt, "generator_exit": GeneratorExit, "unprintable": UnprintableError,
+               "not_implemented": NotImplementedError, "os": OSError, "eof": EOFError, "arithmetic": ZeroDivisionError}
+
+
+# ------------------------------------------------------------------ tool objects (module level, so that an engine holding them can be pickled)
+_ACTIVE = [None]        # the session that is being driven; a tool body finds its session here (a duplicate of a tool has the same key)
+
+
+class Body:
+    """the callable wrapped by SimpleTool / register_function"""
+
+    def __init__(self, key, falsy=False):
+        self.key = key
+        self.falsy = falsy
+
+    def __call__(self, *a, **kw):
+        return _ACTIVE[0].run_body(self.key)
+
+    def __bool__(self):
+        return not self.falsy
+
+
+class ObjTool:
+    """a tool that is not a SimpleTool (duck-typed)"""
+    description = "custom tool"
+    parameters_schema = {"type": "object", "properties": {}}
+
+    def __init__(self, key, name):
+        self.key = key
+        self.name = name
+
+    def execute(self, *a, **kw):
+        return _ACTIVE[0].run_body(self.key)
+
+
+class FalsyObjTool(ObjTool):
+    def __bool__(self):
+        return False
+
+
+class EmptyLenObjTool(ObjTool):
+    def __len__(self):
+        return 0
+
+
+class DynTool(ObjTool):
+    """the declaration is computed on every read"""
+    @property
+    def required_capabilities(self):
+        return _ACTIVE[0].dyn_read(self.key)
+
+
+class StrSub(str):
+    """a str subclass (tags, tool names, request names)"""
+    __slots__ = ()
+
+
+class Sentinel:
+    """a capability tag that compares by identity only"""
+
+    def __repr__(self):
+        return "<sentinel tag>"
+
+
+class SetSub(set):
+    pass
+
+
+class FrozenSub(frozenset):
+    pass
+
+
+class _RawSink(io.RawIOBase):
+    def writable(self):
+        return True
+
+    def write(self, b):
+        return len(b)
+
+
+def strict_stream():
+    """a strict UTF-8 text stream: lone surrogates raise here (they do not in StringIO)"""
+    return io.TextIOWrapper(_RawSink(), encoding="utf-8", errors="strict", write_through=True)
 
 
 # ------------------------------------------------------------------ thread schedules
@@ -237,11 +398,19 @@ def thread_case(ctx, n):
 # ------------------------------------------------------------------ sessions
 class Rec:
     """one generated tool (one body); `req_now` is the check's own copy of what it currently declares"""
-    __slots__ = ("key", "name", "style", "obj", "container", "req_now", "raise_kind", "reentrant", "advance", "custom", "reg_args", "mutated")
+    __slots__ = ("key", "num", "name", "style", "obj", "container", "req_now", "raise_kind", "reentrant", "advance", "custom", "reg_args", "mutated",
+                 "sentinel", "dyn_fired", "dyn_declared")
 
 
 class Eng:
-    __slots__ = ("idx", "mito", "allowed", "tools", "reg_by_key", "nucleus", "cfg", "reads", "raised", "name_list")
+    __slots__ = ("idx", "mito", "allowed", "tools", "reg_by_key", "nucleus", "cfg", "reads", "raised", "name_list", "dup")
+
+
+def safe_repr(o):
+    try:
+        return repr(o)
+    except BaseException:
+        return "<%s (unprintable)>" % type(o).__name__
 
 
 def fmt(a):
@@ -255,9 +424,12 @@ class Session:
         self.as_str = rng.random() < 0.15
         self.caps = [c.value if self.as_str else c for c in Capability]
         self.custom_tags = ["shell", "admin", "Shell", SiteTag.SHELL, SiteTag.ADMIN, SiteTag.ROOT, 7, None, ("fs", "write"),
-                            "net", "NET", "Read_FS", "Capability.NET", SiteTag.NET, "", 0, -0.0, float("inf"), 2 ** 53 + 1]
+                            "net", "NET", "Read_FS", "Capability.NET", SiteTag.NET, "", 0, -0.0, float("inf"), 2 ** 53 + 1,
+                            StrSub("shell"), StrSub("deploy"), Sentinel(), True, fractions.Fraction(1, 3), decimal.Decimal("0.1"),
+                            "a.b*", "{0}", "%(net)s", "x\x00y", "net\n", b"net"]
         self.log = []                      # keys of tool bodies in execution order
         self.recs = {}
+        self.by_num = {}
         self.engines = []
         self.history = collections.deque(maxlen=40)
         self.ops = 0
@@ -268,10 +440,16 @@ class Session:
         self.clock = None
         self.call_cache = {}
         self.names = ["fetch", "Fetch", "fetcher", "sum", "abs", "t1", "len", "tool_two", "pay"]
-        if rng.random() < 0.25:            # unusual names: one letter, a prefix of another name, keywords inside, long, non-ASCII, dunder
+        x = rng.random()
+        if x < 0.25:            # unusual names: one letter, a prefix of another name, keywords inside, long, non-ASCII, dunder
             self.names = self.names[:5] + ["x", "order", "nottrue", "Tool_Two", "t" * 60, "\u03c0tool", "__class__", "print", "pi", "tool_two_"]
+        elif x < 0.4:           # hostile names: regex metacharacters, braces, %, NUL, newlines, lone surrogates, str subclasses, quotes
+            self.names = self.names[:4] + ["a.b*", "f{0}", "{name}", "%s", "100%", "x\x00y", "line\nbreak", "\ud800tool", "t'q\"", "(", "$^[", "\\d+",
+                                           StrSub("sub"), StrSub("fetch"), "tool\r", "\U0001f9a0"]
         self.styles = ["required", "register_function", "capabilities", "both_equal", "empty_required_plus_capabilities",
-                       "list_required", "frozen_required", "tuple_required", "none", "required", "register_function", "dynamic_required"]
+                       "list_required", "frozen_required", "tuple_required", "none", "required", "register_function", "dynamic_required",
+                       "unhashable_required", "sub_required", "keys_required"]
+        self.strict_out = rng.random() < 0.35
         self.provider = None
 
     # -------------------------------------------------------------- generators
@@ -308,10 +486,15 @@ class Session:
             s |= {"site:%d" % i for i in range(rng.choice([397, 2000]))}
         form = rng.random()
         given = frozenset(s) if form < 0.12 else list(s) if form < 0.17 else tuple(s) if form < 0.2 else set(s)
+        if 0.2 <= form < 0.3:
+            # other set-likes: subclasses, a dict's key view, a mapping (iterating / membership = its keys)
+            # (a one-shot iterable is exhausted by the first membership test: from then on the engine may only be MORE restrictive than the model)
+            given = rng.choice([SetSub, FrozenSub, lambda v: dict.fromkeys(v, True).keys(), lambda v: dict.fromkeys(v, False),
+                                lambda v: iter(list(v)), lambda v: (t for t in list(v))])(s)
         return given, frozenset(s)
 
     # -------------------------------------------------------------- tools
-    def new_rec(self, name=None, force_forbidden_for=None):
+    def new_rec(self, name=None, force_forbidden_for=None, force_permitted_for=None):
         rng = self.rng
         r = Rec()
         r.name = name or (rng.choice(self.names) if not self.long_ops or rng.random() < 0.1 else "tool_%d" % self.counter)
@@ -324,8 +507,14 @@ class Session:
             extra = [c for c in self.caps + ["shell", SiteTag.ADMIN] if certainly_outside(c, force_forbidden_for.allowed)]
             if extra and r.style != "none":
                 req.add(rng.choice(extra))
+        if force_permitted_for is not None and force_permitted_for.allowed is not None:
+            req = {t for t in req if t in force_permitted_for.allowed}
         self.counter += 1
+        r.num = self.counter
         r.key = "%s#%d" % (r.name, self.counter)
+        r.sentinel = os.path.join(_AUDIT["dir"], "%d-%d" % (self.ctx.shard, r.num))      # (never derived from the tool name: names may be hostile)
+        self.by_num[str(r.num)] = r.key
+        r.dyn_fired, r.dyn_declared = False, None
         r.req_now = frozenset(req)
         r.raise_kind = rng.choice(list(RAISE_KINDS)) if rng.random() < 0.12 else None
         r.reentrant = rng.random() < 0.06 and not self.long_ops
@@ -338,41 +527,58 @@ class Session:
         self.make_tool(r, req)
         return r
 
+    def run_body(self, key):
+        """the body of the tool `key` (of the original object or of any duplicate of it)"""
+        S = self
+        r = S.recs[key]
+        S.log.append(key)
+        if not S.long_ops:
+            try:
+                with open(r.sentinel, "a"):
+                    pass
+            except OSError:
+                pass
+        if S.clock is not None and r.advance:
+            S.clock.advance(r.advance)
+        if r.reentrant and S.depth < 2 and S.current is not None:
+            S.reenter(r)
+        if r.raise_kind:
+            S.ctx.count("tool_bodies_raised")
+            if S.current is not None:
+                S.current.raised = True
+            raise RAISE_KINDS[r.raise_kind]("tool %s failed" % r.num)
+        return "RAN-%s|" % key
+
+    def dyn_read(self, key):
+        """a declaration computed on every read; reading it may (once) re-register the name with a forbidden tool"""
+        S = self
+        r = S.recs[key]
+        S.ctx.count("declaration_reads")
+        if not r.dyn_fired and S.current is not None and S.depth < 2 and S.rng.random() < 0.3:
+            r.dyn_fired = True
+            S.reregister_forbidden(r.name)
+        return set(r.dyn_declared)
+
     def make_tool(self, r, required):
         from operon_ai.organelles.mitochondria import SimpleTool
         S = self
-        key = r.key
-        sentinel = os.path.join(_AUDIT["dir"], "%d-%s" % (self.ctx.shard, key))
         light = bool(self.long_ops)
-
-        def body(*a, **kw):
-            S.log.append(key)
-            if not light:
-                try:
-                    with open(sentinel, "a"):
-                        pass
-                except OSError:
-                    pass
-            if S.clock is not None and r.advance:
-                S.clock.advance(r.advance)
-            if r.reentrant and S.depth < 2 and S.current is not None:
-                S.reenter(r)
-            if r.raise_kind:
-                S.ctx.count("tool_bodies_raised")
-                if S.current is not None:
-                    S.current.raised = True
-                raise RAISE_KINDS[r.raise_kind]("tool %s failed" % key)
-            return "RAN-%s|" % key
+        rng = S.rng
+        body = Body(r.key, falsy=rng.random() < 0.1)
 
         style = r.style
         if style == "required":
             r.container = set(required)
-            if not light and S.rng.random() < 0.08:
+            if not light and rng.random() < 0.08:
                 # the SAME set object as the declaration of another tool (equal content at this moment)
                 twins = [x for x in S.recs.values() if x is not r and x.container is not None and x.style == "required" and x.req_now == r.req_now]
                 if twins:
                     r.container = twins[0].container
-            r.obj = SimpleTool(name=r.name, description="t", func=body, required_capabilities=r.container)
+            kw = {}
+            if rng.random() < 0.15:
+                kw["parameters_schema"] = rng.choice([{}, {"type": "object", "properties": {"required_capabilities": {"type": "array"}}}, None])
+            r.obj = SimpleTool(name=r.name, description=rng.choice(["t", "", "allowed_capabilities=None", "d\ud800"]) if not light else "t",
+                               func=body, required_capabilities=r.container, **kw)
             return
         if style == "register_function":
             r.container = set(required)
@@ -382,27 +588,14 @@ class Session:
             r.obj = SimpleTool(name=r.name, description="t", func=body, required_capabilities=frozenset(required))
             return
 
-        class Obj:
-            description = "custom tool"
-            parameters_schema = {"type": "object", "properties": {}}
-
-            def execute(self, *a, **kw):
-                return body(*a, **kw)
-
         if style == "dynamic_required":
-            # the declaration is computed on every read; reading it may (once) re-register the name with a forbidden tool
-            state = {"fired": False}
-            declared = frozenset(required)
-
-            def _get(self_):
-                S.ctx.count("declaration_reads")
-                if not state["fired"] and S.current is not None and S.depth < 2 and S.rng.random() < 0.3:
-                    state["fired"] = True
-                    S.reregister_forbidden(r.name)
-                return set(declared)
-            Obj.required_capabilities = property(_get)
-        o = Obj()
-        o.name = r.name
+            r.dyn_declared = frozenset(required)
+            r.obj = DynTool(r.key, r.name)
+            return
+        o = rng.choice([ObjTool, ObjTool, ObjTool, FalsyObjTool, EmptyLenObjTool])(r.key, r.name)
+        if rng.random() < 0.1:
+            # attributes named like the library's own labels must not be taken for the engine's policy or for a verdict
+            o.allowed_capabilities, o.success, o.permitted, o.tools, o.silent = None, True, True, {}, False
         if style == "capabilities":
             r.container = set(required)
             o.capabilities = r.container
@@ -416,23 +609,54 @@ class Session:
             o.required_capabilities = list(required)
         elif style == "tuple_required":
             o.required_capabilities = tuple(required)
+        elif style == "unhashable_required":
+            # the declaration also lists a tag that cannot be hashed (so it cannot be a member of any allowed set); the model keeps the
+            # hashable part only, so the tool is judged only when a hashable tag is outside the allowed set as well
+            o.required_capabilities = list(required) + [rng.choice([["net"], {"scope": "all"}, bytearray(b"x")])]
+        elif style == "sub_required":
+            o.required_capabilities = rng.choice([SetSub, FrozenSub])(required)
+        elif style == "keys_required":
+            o.required_capabilities = dict.fromkeys(required, True)       # a mapping: iterating it yields the tags
         r.obj = o
+
+    def registry_get(self, eng, name):
+        try:
+            return eng.mito.tools.get(name)
+        except Exception:
+            return None
 
     def register(self, eng, r, note=True):
         rng = self.rng
-        if r.reg_args is not None:
-            kw = {}
-            if rng.random() < 0.5:       # the other optional registration arguments must not disturb the declaration
-                kw["parameters_schema"] = rng.choice([{"type": "object", "properties": {"x": {"type": "integer"}}}, {}, {"type": "object"}])
-            name, body, req = r.reg_args
-            if rng.random() < 0.5:
-                kw["description"] = rng.choice(["tool %s" % name, "", "d" * 300])
-                eng.mito.register_function(name, body, required_capabilities=req, **kw)
+        before = self.registry_get(eng, r.name)
+        obj = r.obj
+        try:
+            if r.reg_args is not None:
+                kw = {}
+                if rng.random() < 0.5:       # the other optional registration arguments must not disturb the declaration
+                    kw["parameters_schema"] = rng.choice([{"type": "object", "properties": {"x": {"type": "integer"}}}, {}, {"type": "object"}])
+                name, body, req = r.reg_args
+                self.ctx.count("register_function_calls")
+                if rng.random() < 0.5:
+                    kw["description"] = rng.choice(["tool %s" % name, "", "d" * 300])
+                    eng.mito.register_function(name, body, required_capabilities=req, **kw)
+                else:
+                    eng.mito.register_function(name, body, "d", required_capabilities=req, **kw)
             else:
-                eng.mito.register_function(name, body, "d", required_capabilities=req, **kw)
-            self.ctx.count("register_function_calls")
-        else:
-            eng.mito.engulf_tool(r.obj)
+                if not self.long_ops and r.style != "dynamic_required" and rng.random() < 0.06:
+                    # a DUPLICATE of the tool object is registered (same body, same declaration at this moment)
+                    obj = copy.copy(obj) if rng.random() < 0.5 else copy.deepcopy(obj)
+                    self.ctx.count("tool_duplicates_registered")
+                if rng.random() < 0.2:
+                    eng.mito.engulf_tool(tool=obj)
+                else:
+                    eng.mito.engulf_tool(obj)
+        except Exception as e:
+            # registration raised (e.g. the progress message could not be written): the tool counts as registered iff the public registry has it now
+            self.ctx.count("registrations_raised")
+            now = self.registry_get(eng, r.name)
+            if now is None or (now is before and now is not obj):
+                self.note({"op": "register raised, not registered", "engine": eng.idx, "tool": r.name, "error": safe_repr(e)[:200]})
+                return
         self.model_register(eng, r)
         if note:
             self.note({"op": "register", "engine": eng.idx, "tool": r.name, "key": r.key, "required": fmt(r.req_now), "style": r.style})
@@ -556,9 +780,16 @@ class Session:
         silent = rng.random() < (0.9 if self.long_ops else 0.6)
         if silent or rng.random() < 0.8:
             kw["silent"] = silent
+            if rng.random() < 0.15:        # truthy / falsy values that are not bool
+                kw["silent"] = rng.choice([1, "yes", [0], 2.5]) if silent else rng.choice([0, None, "", 0.0, ()])
+        if "timeout_seconds" in kw and self.clock is not None and rng.random() < 0.15:
+            kw["timeout_seconds"] = rng.choice([fractions.Fraction(1, 2), True, fractions.Fraction(10 ** 6), decimal.Decimal("5")])
+        if "max_ros" in kw and not self.long_ops and rng.random() < 0.1:
+            kw["max_ros"] = rng.choice([fractions.Fraction(1, 3), decimal.Decimal("0.3"), True, fractions.Fraction(10 ** 9)])
         cfg.update({k: repr(v) for k, v in kw.items()})
+        cfg["silent"] = repr(bool(kw.get("silent", False)))
         e.cfg = cfg
-        e.tools, e.reg_by_key, e.reads, e.raised, e.name_list = {}, {}, 0, False, []
+        e.tools, e.reg_by_key, e.reads, e.raised, e.name_list, e.dup = {}, {}, 0, False, [], None
         initial = [self.new_rec() for _ in range(rng.randint(0, 2))]
         if self.engines and rng.random() < 0.4:
             # a tool object shared with another engine
@@ -569,10 +800,32 @@ class Session:
         ctor = [r for r in initial if r.obj is not None] if via_ctor else []
         if via_ctor:
             kw["tools"] = [r.obj for r in ctor] if (ctor or rng.random() < 0.5) else None
-        e.mito = Mitochondria(allowed_capabilities=given, **kw)
+        ctor_kw = dict(kw)
+        if ctor_kw.get("tools") and rng.random() < 0.3:
+            # one-shot iterables and other sequences where a list is usual
+            ctor_kw["tools"] = rng.choice([iter, tuple, lambda v: (t for t in v), lambda v: map(lambda t: t, v),
+                                           lambda v: collections.deque(v), lambda v: {id(t): t for t in v}.values()])(kw["tools"])
+            cfg["tools_form"] = type(ctor_kw["tools"]).__name__
+        try:
+            e.mito = Mitochondria(allowed_capabilities=given, **ctor_kw)
+        except Exception as ex:
+            # (non-silent construction with a hostile tool name on a strict stream): construct empty, register afterwards
+            self.ctx.count("constructions_raised")
+            ctor_kw.pop("tools", None)
+            kw.pop("tools", None)
+            ctor = []
+            try:
+                e.mito = Mitochondria(allowed_capabilities=given, **ctor_kw)
+            except Exception:
+                # (a tree that validates its options may reject the unusual value types): plain options
+                self.ctx.count("constructions_with_plain_options")
+                for k in ("timeout_seconds", "max_ros", "silent"):
+                    cfg.pop(k, None)
+                cfg["silent"] = "True"
+                e.mito = Mitochondria(allowed_capabilities=given, silent=True)
         cfg["_given"], cfg["_model0"] = given, model
         self.engines.append(e)
-        if kw.get("tools") is not None and rng.random() < 0.3:
+        if isinstance(kw.get("tools"), list) and rng.random() < 0.3:
             # the caller keeps using its list after construction: what is appended now was never registered
             orphan = self.new_rec(force_forbidden_for=e)
             if orphan.obj is not None:
@@ -588,7 +841,8 @@ class Session:
         if rng.random() < 0.5:
             others = [x.nucleus for x in self.engines[:-1] if x.nucleus is not None]
             e.nucleus = rng.choice(others) if others and rng.random() < 0.5 else Nucleus(
-                provider=self.get_provider(), base_energy_cost=rng.choice([10, 0, 1, 10 ** 9]), max_retries=rng.choice([3, 0, 1]))
+                provider=self.get_provider(), base_energy_cost=rng.choice([10, 0, 1, 10 ** 9]), max_retries=rng.choice([3, 0, 1]),
+                **({"transcription_log": []} if rng.random() < 0.2 else {}))
         self.note({"op": "new engine", "engine": e.idx, "config": {k: v for k, v in cfg.items() if not k.startswith("_")},
                    "allowed": fmt(model), "tools": {nm: fmt(self.recs[k].req_now) for nm, (k, _) in e.tools.items()}})
         return e
@@ -643,12 +897,16 @@ class Session:
         detail = None
         judged_report = False
         try:
+            by_keyword = rng.random() < 0.2
             if entry == "metabolize_auto":
-                r = mito.metabolize("%s(%s)" % (name, rng.choice(self.ARGS)))
+                expr = "%s(%s)" % (name, rng.choice(self.ARGS))
+                r = mito.metabolize(expression=expr, pathway=None) if by_keyword else mito.metabolize(expr)
                 reported_success, detail = r.success, r.error
                 # auto-detection may route an allow-listed name (sum/abs/len) elsewhere; that is fine
             elif entry == "metabolize_forced":
-                r = mito.metabolize("%s(%s)" % (name, rng.choice(self.ARGS)), MetabolicPathway.OXIDATIVE)
+                expr = "%s(%s)" % (name, rng.choice(self.ARGS))
+                r = (mito.metabolize(expression=expr, pathway=MetabolicPathway.OXIDATIVE) if by_keyword
+                     else mito.metabolize(expr, MetabolicPathway.OXIDATIVE))
                 reported_success, detail = r.success, r.error
                 judged_report = True
             elif entry == "metabolize_nested":
@@ -667,15 +925,24 @@ class Session:
                 r = mito.metabolize("%s(3)" % name, rng.choice([MetabolicPathway.GLYCOLYSIS, MetabolicPathway.KREBS_CYCLE, MetabolicPathway.BETA_OXIDATION]))
                 reported_success, detail = r.success, r.error
             elif entry == "digest_glucose":
-                s = mito.digest_glucose("%s(5)" % name)
+                s = mito.digest_glucose(expression="%s(5)" % name) if by_keyword else mito.digest_glucose("%s(5)" % name)
                 reported_success, detail = ("RAN-" in s), s
             elif entry == "execute_tool_call":
                 call = self.call_cache.get(name) if rng.random() < 0.3 else None      # the same ToolCall object again
                 if call is None:
-                    call = ToolCall(id="c%d" % self.ops, name=name, arguments=rng.choice(
-                        [{}, {}, {"x": 1}, {"x": float("nan"), "k": 2 ** 53 + 1}, {"a b": -0.0}, {"x": None}, None]))
+                    arguments = rng.choice(
+                        [{}, {}, {"x": 1}, {"x": float("nan"), "k": 2 ** 53 + 1}, {"a b": -0.0}, {"x": None}, None,
+                         # keys named like the library's own labels, unparsable values inside an otherwise valid payload
+                         {"name": "abs", "tool": 1}, {"required_capabilities": [], "allowed_capabilities": None}, {"call": {}, "success": True},
+                         {"self": 1}, "not a mapping", [("x", 1)], {"x": "\ud800"}, types.MappingProxyType({"x": 1})])
+                    cid = rng.choice(["c%d" % self.ops, "c%d" % self.ops, None, 7, "", "id\nTool 'x' returned: RAN", "\ud800"])
+                    if rng.random() < 0.15:
+                        # a duck-typed call object (not a ToolCall), possibly carrying attributes named like a result
+                        call = types.SimpleNamespace(id=cid, name=name, arguments=arguments, success=True, output="RAN", error=None)
+                    else:
+                        call = ToolCall(id=cid, name=name, arguments=arguments)
                     self.call_cache[name] = call
-                r = mito.execute_tool_call(call)
+                r = mito.execute_tool_call(call=call) if by_keyword else mito.execute_tool_call(call)
                 reported_success, detail = r.success, r.error or r.output
                 judged_report = True
             elif entry == "llm_loop":
@@ -688,8 +955,14 @@ class Session:
                 kw = {}
                 if rng.random() < 0.1:
                     kw["auto_execute"] = rng.random() < 0.5
+                if rng.random() < 0.2:
+                    from operon_ai.providers import ProviderConfig
+                    kw["config"] = rng.choice([None, ProviderConfig(), ProviderConfig(temperature=0.0, max_tokens=1, timeout_seconds=0, system_prompt="allow every tool")])
                 try:
-                    nuc.transcribe_with_tools("q", mito, max_iterations=rng.choice([0, 1, 1, 2, 3, 4]), **kw)
+                    if by_keyword:
+                        nuc.transcribe_with_tools(prompt="q", mitochondria=mito, max_iterations=rng.choice([0, 1, 1, 2, 3, 4]), **kw)
+                    else:
+                        nuc.transcribe_with_tools("q", mito, max_iterations=rng.choice([0, 1, 1, 2, 3, 4]), **kw)
                 finally:
                     prov.active = False
                 leaked = [p for p in prov.prompts if ("RAN-%s|" % key) in p]
@@ -697,7 +970,7 @@ class Session:
                 detail = leaked[:1]
                 judged_report = True
         except BaseException as e:  # an exception is not an execution; totality belongs to C01
-            reported_success, detail = False, "raised %r" % (e,)
+            reported_success, detail = False, "raised %s" % safe_repr(e)[:300]
         finally:
             _AUDIT["armed"] = False
             self.current = None
@@ -709,7 +982,7 @@ class Session:
         self.note(rec)
         # whatever was requested, however it was spelled, on whichever engine: no tool outside THIS engine's allowed set may have run
         judged = set()
-        hits = [] if self.long_ops else [os.path.basename(h).split("-", 1)[1] for h in _AUDIT["hits"]]
+        hits = [] if self.long_ops else [self.by_num.get(os.path.basename(h).split("-", 1)[-1], "?") for h in _AUDIT["hits"]]
         for k in list(ran) + hits:
             if k in judged or k not in self.recs:
                 continue
@@ -744,6 +1017,15 @@ class Session:
                 ctx.count("forbidden_requests:after_declaration_mutation")
             if dysfunctional:
                 ctx.count("forbidden_requests:dysfunctional")
+            if eng.dup:
+                ctx.count("forbidden_requests:on_duplicate")
+                ctx.count("forbidden_requests:on_duplicate:" + eng.dup)
+            if self.strict_out:
+                ctx.count("forbidden_requests:strict_stream")
+            if r0.style in ("unhashable_required", "sub_required", "keys_required"):
+                ctx.count("forbidden_requests:" + r0.style)
+            if type(target) is not str or not target.isidentifier():
+                ctx.count("forbidden_requests:hostile_name")
             self.forbidden_seen.add((entry, len(eng.allowed), sum(1 for q in r0.req_now if certainly_outside(q, eng.allowed)), r0.style, r0.custom))
             still = eng.tools.get(target)
             if (reported_success and judged_report and key not in ran and still is not None
@@ -752,6 +1034,8 @@ class Session:
                               "forbidden request for %r via %s reported success (%r)" % (name, entry, detail), self.witness())
         elif v0 == "permitted" and key in ran:
             ctx.count("permitted_runs")
+            if eng.dup:
+                ctx.count("permitted_runs:on_duplicate")
 
     def op_read(self, eng):
         """reporting / read-only APIs: must not change any later verdict"""
@@ -767,6 +1051,8 @@ class Session:
                     eng.nucleus.get_total_tokens_used()
                     eng.nucleus.get_total_energy_consumed()
                     repr(eng.nucleus)
+                    if rng.random() < 0.3:
+                        eng.nucleus.transcribe("plain question", config=None)      # (no tools involved: must not run any)
             elif what == "all_public_getters":
                 # every public zero-argument get_* / list_* / export_* method, whatever it is called
                 for nm in sorted(dir(type(mito))):
@@ -795,6 +1081,8 @@ class Session:
         try:
             if amount is None:
                 eng.mito.repair()
+            elif rng.random() < 0.3:
+                eng.mito.repair(amount=amount)
             else:
                 eng.mito.repair(amount)
         except Exception:
@@ -812,7 +1100,12 @@ class Session:
             return
         name = self.rng.choice(list(eng.tools))
         try:
-            eng.mito.tools.pop(name, None)
+            if not self.long_ops and self.rng.random() < 0.2 and not any(x is not eng and x.tools is eng.tools for x in self.engines):
+                # the public registry attribute is assigned a fresh mapping without the tool
+                eng.mito.tools = {k: v for k, v in eng.mito.tools.items() if k != name}
+                self.ctx.count("registry_rebound")
+            else:
+                eng.mito.tools.pop(name, None)
         except Exception:
             return     # (the registry is not a plain mapping: nothing was removed, and the model is requirement-based anyway)
         self.model_unregister(eng, name)
@@ -857,6 +1150,8 @@ class Session:
         what = rng.choice(["silent", "silent", "max_ros", "timeout"])
         if what == "silent":
             val = rng.random() < 0.4
+            if rng.random() < 0.2:
+                val = rng.choice([1, "quiet", [0]]) if val else rng.choice([0, None, "", 0.0])
         elif what == "max_ros":
             val = rng.choice([1e9, float("inf"), 1.0, 0.3, 0, float("nan")]) if not self.long_ops else 1e9
         else:
@@ -865,7 +1160,7 @@ class Session:
             setattr(eng.mito, what, val)
         except Exception:
             return
-        eng.cfg[what if what != "timeout" else "timeout_seconds"] = repr(val)
+        eng.cfg[what if what != "timeout" else "timeout_seconds"] = repr(val) if what != "silent" else repr(bool(val))
         self.ctx.count("reconfigurations")
         self.note({"op": "reconfigure", "engine": eng.idx, "option": what, "value": repr(val)})
 
@@ -895,7 +1190,7 @@ class Session:
             if len(eng.tools) < 2500 and rng.random() < 0.15:
                 r = 0.0
             elif rng.random() < 0.04:
-                r = rng.random() * 0.46
+                r = rng.random() * 0.49
             else:
                 r = 0.9
         if r < 0.13 or not eng.tools:
@@ -928,20 +1223,146 @@ class Session:
             self.new_engine()
         elif r < 0.46:
             self.op_reconfigure(eng)
+        elif r < 0.49 and len(self.engines) < (3 if self.long_ops else 5):
+            self.op_duplicate(eng)
+        elif r < 0.497 and not self.long_ops:
+            self.op_address_reuse(eng)
         else:
+            self.aimed_request(eng)
+
+    def aimed_request(self, eng, entry=None):
+        rng = self.rng
+        if not eng.tools:
+            return
+        if entry is None:
             entry = rng.choice(self.LONG_ENTRIES if self.long_ops else self.ENTRIES)
             if self.long_ops and rng.random() < 0.002:
                 entry = "llm_loop"
-            # aim at forbidden tools more often than chance would
-            names = list(eng.tools) if len(eng.tools) < 50 else self.some_names(eng)
-            forb = [t for t in names if self.verdict_name(eng, t) == "forbidden"]
-            name = rng.choice(forb) if forb and rng.random() < 0.7 else rng.choice(names)
-            if rng.random() < 0.06:
-                # a tool this engine never registered: registered on another engine only, or merely appended to a constructor list
-                foreign = [x.name for x in self.recs.values() if x.name not in eng.tools]
-                if foreign:
-                    name = rng.choice(foreign[:50])
-            self.request(eng, entry, name)
+        # aim at forbidden tools more often than chance would
+        names = list(eng.tools) if len(eng.tools) < 50 else self.some_names(eng)
+        forb = [t for t in names if self.verdict_name(eng, t) == "forbidden"]
+        name = rng.choice(forb) if forb and rng.random() < 0.7 else rng.choice(names)
+        if rng.random() < 0.06:
+            # a tool this engine never registered: registered on another engine only, or merely appended to a constructor list
+            foreign = [x.name for x in self.recs.values() if x.name not in eng.tools]
+            if foreign:
+                name = rng.choice(foreign[:50])
+        self.request(eng, entry, name)
+
+    def op_duplicate(self, eng):
+        """copy.copy / copy.deepcopy / pickle round trip of a live engine: the duplicate is one more engine of the session and has the
+        same obligations (same policy, same registrations) as the original at the moment of duplication"""
+        rng, ctx = self.rng, self.ctx
+        how = rng.choice(["copy", "deepcopy", "pickle", "deepcopy", "pickle", "reduce"])
+        try:
+            if how == "copy":
+                m2 = copy.copy(eng.mito)
+            elif how == "deepcopy":
+                m2 = copy.deepcopy(eng.mito)
+            elif how == "reduce":
+                # the reduce protocol driven by hand (what a snapshot library does)
+                rv = eng.mito.__reduce_ex__(rng.choice([2, 4]))
+                m2 = rv[0](*rv[1])
+                state = rv[2] if len(rv) > 2 else None
+                if state is not None:
+                    state = copy.deepcopy(state) if rng.random() < 0.5 else state
+                    if hasattr(m2, "__setstate__"):
+                        m2.__setstate__(state)
+                    else:
+                        slotstate = None
+                        if isinstance(state, tuple) and len(state) == 2:
+                            state, slotstate = state
+                        if state:
+                            m2.__dict__.update(state)
+                        for k_, v_ in (slotstate or {}).items():
+                            setattr(m2, k_, v_)
+            else:
+                m2 = pickle.loads(pickle.dumps(eng.mito, rng.choice([0, 2, 4, pickle.HIGHEST_PROTOCOL, pickle.DEFAULT_PROTOCOL])))
+        except Exception as e:
+            ctx.count("duplications_failed")       # (e.g. a policy handed over as a key view cannot be deep-copied): nothing to judge
+            self.note({"op": "duplicate failed", "engine": eng.idx, "how": how, "error": safe_repr(e)[:200]})
+            return
+        ctx.count("duplications")
+        ctx.count("duplications:" + how)
+        e = Eng()
+        e.idx = len(self.engines)
+        e.mito = m2
+        e.allowed = eng.allowed
+        e.reads, e.raised, e.dup = eng.reads, eng.raised, how
+        shared = False
+        try:
+            shared = m2.tools is eng.mito.tools
+        except Exception:
+            pass
+        if shared:
+            # (a shallow copy shares the public registry mapping: what is registered on one is registered on the other)
+            e.tools, e.reg_by_key, e.name_list = eng.tools, eng.reg_by_key, eng.name_list
+        else:
+            e.tools = dict(eng.tools)
+            e.name_list = list(eng.name_list)
+            e.reg_by_key = {k: list(v) for k, v in eng.reg_by_key.items()}
+            for nm, (k, _) in eng.tools.items():
+                # the duplicate of a tool declares what the original declared at this moment, whatever happens to the original later
+                lst = e.reg_by_key.setdefault(k, [])
+                q = self.recs[k].req_now
+                if q not in lst:
+                    lst.append(q)
+        e.cfg = dict(eng.cfg, duplicate_of=eng.idx, duplicated_by=how)
+        e.nucleus = eng.nucleus if rng.random() < 0.5 else None
+        if e.nucleus is not None and rng.random() < 0.5:
+            try:
+                e.nucleus = copy.copy(e.nucleus)
+            except Exception:
+                pass
+        self.engines.append(e)
+        self.note({"op": "duplicate", "engine": eng.idx, "how": how, "new_engine": e.idx, "allowed": fmt(e.allowed),
+                   "tools": {nm: fmt(self.recs[k].req_now) for nm, (k, _) in list(e.tools.items())[:8]}})
+        for _ in range(rng.choice([0, 1, 1, 2])):
+            self.aimed_request(e)
+        if rng.random() < 0.3:
+            self.aimed_request(eng)        # ... and the original is as restricted as before
+
+    def op_address_reuse(self, eng):
+        """short-lived tools / policies / calls created and dropped in a loop: a fresh object may get the address of a dead one, so a decision
+        remembered by id() would be served for the wrong object"""
+        rng, ctx = self.rng, self.ctx
+        if eng.allowed is None or any(x is not eng and x.tools is eng.tools for x in self.engines):
+            return
+        name = rng.choice(["scratch", "fetch", "tmp_tool"])
+        style = rng.choice(["required", "frozen_required", "capabilities", "list_required", "register_function"])
+        entry = rng.choice(["execute_tool_call", "metabolize_forced", "metabolize_auto", "llm_loop"])
+        keep_styles = self.styles
+        ctx.count("address_reuse_rounds")
+        try:
+            self.styles = [style]
+            for i in range(rng.choice([2, 3, 4])):
+                for forbidden in (False, True):
+                    r = self.new_rec(name, force_forbidden_for=eng if forbidden else None, force_permitted_for=None if forbidden else eng)
+                    r.reentrant = False
+                    self.current = eng
+                    try:
+                        self.register(eng, r, note=True)
+                    finally:
+                        self.current = None
+                    if name in eng.tools:
+                        self.request(eng, entry, name)
+                    # drop every reference the session holds to the tool object, then let the allocator reuse the address
+                    self.registry_pop(eng, name)
+                    r.obj = None
+                    r.reg_args = None
+                    self.call_cache.pop(name, None)
+                    del r
+                    gc.collect(0 if rng.random() < 0.9 else 2)
+        finally:
+            self.styles = keep_styles
+
+    def registry_pop(self, eng, name):
+        try:
+            eng.mito.tools.pop(name, None)
+        except Exception:
+            pass
+        if name in eng.tools:
+            self.model_unregister(eng, name)
 
     def some_names(self, eng):
         lst = eng.name_list
@@ -1018,12 +1439,18 @@ def session_case(ctx, n, long_ops=0):
     import operon_ai.organelles.mitochondria as mito_mod
     rng = ctx.rng(n)
     S = Session(ctx, n, rng, long_ops)
-    with contextlib.ExitStack() as stack:
-        stack.enter_context(contextlib.redirect_stdout(_Sink()))       # verbose engines print; nothing may depend on it
-        if rng.random() < 0.5:
-            S.clock = vclock.VClock(base=1_700_000_000.0)     # (only the engine module reads it, through time.time())
-            stack.enter_context(vclock.patched(S.clock, mito_mod))
-        S.run()
+    previous = _ACTIVE[0]
+    _ACTIVE[0] = S
+    try:
+        with contextlib.ExitStack() as stack:
+            # verbose engines print; nothing may depend on it. A share of the sessions writes to a strict UTF-8 stream.
+            stack.enter_context(contextlib.redirect_stdout(strict_stream() if S.strict_out else _Sink()))
+            if rng.random() < 0.5:
+                S.clock = vclock.VClock(base=1_700_000_000.0)     # (only the engine module reads it, through time.time())
+                stack.enter_context(vclock.patched(S.clock, mito_mod))
+            S.run()
+    finally:
+        _ACTIVE[0] = previous
     for f in S.forbidden_seen:
         ctx.nontrivial(f)
     if n % 500 == 0:
@@ -1042,5 +1469,123 @@ def run_case(ctx, n):
     return session_case(ctx, n)
 
 
+# ------------------------------------------------------------------ the same sessions in an interpreter started with -O / -OO
+# A guard written as an `assert` disappears when the interpreter optimises. A small share of the session workload therefore runs in a child
+# interpreter started with -O (and one with -OO in a time zone far from UTC); its verdicts come back as `<mechanism>:python-O`.
+CHILD_BASE = 1_000_000
+
+
+def child_specs(tier):
+    k = 1 if tier == "quick" else 10
+    return [{"flag": "-O", "level": 1, "start": CHILD_BASE, "count": 500 * k, "tz": None},
+            {"flag": "-OO", "level": 2, "start": CHILD_BASE + 500 * k, "count": 250 * k, "tz": "Pacific/Kiritimati"}]
+
+
+def child_main(argv):
+    import time
+    tier, seed, level, start, count, out = argv[0], int(argv[1]), int(argv[2]), int(argv[3]), int(argv[4]), argv[5]
+    if os.environ.get("C03_CHILD_TZ"):
+        os.environ["TZ"] = os.environ["C03_CHILD_TZ"]
+        time.tzset()
+    ctx = core.Ctx(PID, tier, seed, 90 + level, 1, verbose=bool(os.environ.get("C03_CHILD_VERBOSE")))
+    status = "ok"
+    try:
+        setup_shard(ctx)
+        for n in range(start, start + count):
+            ctx.case = "optimized:%d:%d" % (level, n)
+            ctx.evaluations += 1
+            session_case(ctx, n)
+        teardown_shard(ctx)
+    except BaseException as e:
+        import traceback
+        status = "harness-error: " + "".join(traceback.format_exception(type(e), e, e.__traceback__))[-2000:]
+    d = ctx.dump()
+    d.update({"status": status, "optimize": sys.flags.optimize, "tzname": list(time.tzname), "utc_offset_s": -time.timezone})
+    with open(out, "w") as f:
+        json.dump(d, f)
+    return 0
+
+
+def run_child(spec, tier, seed, verbose=False):
+    fd, out = tempfile.mkstemp(prefix="operon-verif-c03-child-", suffix=".json", dir="/var/tmp")
+    os.close(fd)
+    env = dict(os.environ)
+    env.pop("PYTHONOPTIMIZE", None)
+    if spec.get("tz"):
+        env["C03_CHILD_TZ"] = spec["tz"]
+    if verbose:
+        env["C03_CHILD_VERBOSE"] = "1"
+    cmd = [sys.executable, spec["flag"], "-B", "-m", "checks.c03_capabilities", "--c03-child", tier, str(seed), str(spec["level"]),
+           str(spec["start"]), str(spec["count"]), out]
+    try:
+        p = subprocess.run(cmd, cwd=core.VERIF, env=env, capture_output=not verbose, text=True, timeout=300 if tier == "quick" else 1500)
+        with open(out) as f:
+            return json.load(f), None
+    except subprocess.TimeoutExpired:
+        return None, "child interpreter (%s) exceeded its hard timeout" % spec["flag"]
+    except Exception as e:
+        tail = ""
+        try:
+            tail = (p.stderr or "")[-600:]
+        except Exception:
+            pass
+        return None, "child interpreter (%s) produced no result: %r %s" % (spec["flag"], e, tail)
+    finally:
+        try:
+            os.unlink(out)
+        except OSError:
+            pass
+
+
+def merge_child(pctx, spec, res, err):
+    tag = "python-O"
+    if res is None:
+        pctx.inconclusive(err)
+        return
+    if res.get("status") != "ok":
+        pctx.inconclusive("child interpreter (%s): %s" % (spec["flag"], res.get("status")))
+    if res.get("optimize") != spec["level"]:
+        pctx.inconclusive("child interpreter (%s) did not run optimised (sys.flags.optimize=%r)" % (spec["flag"], res.get("optimize")))
+        return
+    pctx.count("%s:children" % tag)
+    pctx.count("%s:sessions" % tag, res.get("evaluations", 0))
+    if spec.get("tz") and res.get("utc_offset_s"):
+        pctx.count("%s:sessions_far_from_utc" % tag, res.get("evaluations", 0))
+    for k, v in res["counters"].items():
+        if k.startswith("max:"):
+            pctx.maxc("%s:%s" % (tag, k[4:]), v)
+        else:
+            pctx.count("%s:%s" % (tag, k), v)
+    pctx.fingerprints.update(res.get("fingerprints", []))
+    for r in res.get("inconclusive_reasons", []):
+        pctx.inconclusive("child interpreter (%s): %s" % (spec["flag"], r))
+    for v in res["violations"]:
+        pctx.case = v["case"]
+        pctx.violation("%s:%s" % (v["mechanism"], tag), "%s [interpreter started with %s]" % (v["what"], spec["flag"]), v["witness"])
+    for m, c in res["violation_counts"].items():
+        key = "%s:%s" % (m, tag)
+        pctx.violation_counts[key] = max(pctx.violation_counts.get(key, 0), c)
+    pctx.case = None
+
+
+def extra_parent(pctx):
+    from concurrent.futures import ThreadPoolExecutor
+    specs = child_specs(pctx.tier)
+    with ThreadPoolExecutor(len(specs)) as ex:
+        for spec, (res, err) in zip(specs, ex.map(lambda sp: run_child(sp, pctx.tier, pctx.seed), specs)):
+            merge_child(pctx, spec, res, err)
+
+
+def replay_special(ctx, case):
+    """case = "optimized:<level>:<n>": run that one session again in a child interpreter started with the same flag"""
+    _, level, n = str(case).split(":")
+    spec = {"flag": "-O" if level == "1" else "-OO", "level": int(level), "start": int(n), "count": 1,
+            "tz": None if level == "1" else "Pacific/Kiritimati"}
+    res, err = run_child(spec, ctx.tier, ctx.seed)
+    merge_child(ctx, spec, res, err)
+
+
 if __name__ == "__main__":
+    if len(sys.argv) > 1 and sys.argv[1] == "--c03-child":
+        sys.exit(child_main(sys.argv[2:]))
     core.main(sys.modules[__name__])
